@@ -30,7 +30,8 @@ def step32 (s : St) (t : Nat) : Option St :=
       some (setThr { s with tail := wadd s.tail 1, locked := false, accepted := s.accepted ++ [v] } t (.pUnlocked len))
   | .pUnlocked len => some (setThr s t (.done (.sent len)))
   | .cLock | .cSpin =>
-      some (if s.locked then setThr s t .cSpin else setThr { s with locked := true } t .cLen)
+      some (if s.locked then setThr s t .cSpin else setThr { s with locked := true } t .cLenT)
+  | .cLenT => some (setThr s t .cLen)
   | .cLen =>
       if posI32 (len32 s.tail s.head) then some (setThr s t .cRead)
       else some (setThr { s with locked := false } t .cEmptyUnlocked)
@@ -39,7 +40,8 @@ def step32 (s : St) (t : Nat) : Option St :=
   | .cRelease v =>
       some (setThr { s with head := wadd s.head 1, locked := false, delivered := s.delivered ++ [(t, s.head, v)] } t (.cUnlocked v))
   | .cUnlocked v => some (setThr s t (.done (.got v)))
-  | .lLen => some (setThr s t (.done (.len (len32 s.tail s.head))))
+  | .lLen => some (setThr s t (.lLenH s.tail))
+  | .lLenH tl => some (setThr s t (.done (.len (len32 tl s.head))))
 
 def apply32 (s : St) : Act → Option St
   | .step t => step32 s t
@@ -54,7 +56,12 @@ def run32 (s : St) : List Act → Option St
 def init32 (n o : Nat) : St := { LockRing.init n with head := o, tail := o }
 
 /-- the image of an M2 state: the two counters (and the sequence numbers in the delivery log) modulo 2^32 -/
+def imgLoc : Loc → Loc
+  | .lLenH tl => .lLenH (wrap tl)
+  | l => l
+
 def img (s : St) : St :=
-  { s with head := wrap s.head, tail := wrap s.tail, delivered := s.delivered.map fun x => (x.1, wrap x.2.1, x.2.2) }
+  { s with head := wrap s.head, tail := wrap s.tail, thr := fun t => imgLoc (s.thr t),
+           delivered := s.delivered.map fun x => (x.1, wrap x.2.1, x.2.2) }
 
 end Mutiny.LockRing32
